@@ -204,19 +204,28 @@ def build() -> Check:
     ck.ob("R4.release-wakes-head", fn_construct(rel), not bad, (bad[0][0] + ": " + sig(bad[0][1])) if bad else "")
 
     # ---- __exit__ -----------------------------------------------------------------------------------
+    # judged on two scenarios with the arguments the interpreter protocol really passes - (None, None, None) after a normal body, and
+    # (type, instance, traceback) of SOME BaseException after a body that raised. (An earlier version read "exceptional" off the path condition
+    # `exc_type is None`, which made the rule blind - exit 2 - as soon as the test was written differently: r6_C19 used isinstance(exc_val, Exception),
+    # which lets SuspendExecution / OrphanedChildException / KeyboardInterrupt leave a critical section without breaking the lock.)
+    from sa.values import ExtRef
     ex = ol.methods["__exit__"]
+    scen = {
+        True: pm.run_function(ex, lock_factory, lambda it, state: {"exc_type": ExtRef("builtins.BaseException"), "exc_val": it.make_exc("builtins.BaseException*", "holder"),
+                                                                   "exc_tb": Sym("tb")}, cell=("__exit__", "raised"), loop_iters=2),
+        False: pm.run_function(ex, lock_factory, lambda it, state: {"exc_type": NONE, "exc_val": NONE, "exc_tb": NONE}, cell=("__exit__", "normal"), loop_iters=2),
+    }
     bad = []
     n_exc = 0
-    for t in traces["__exit__"]:
+    for exceptional, t in [(k, t) for k, ts in scen.items() for t in ts]:
         evs = t.events
-        exceptional = dict(t.pc).get("exc_type is None") is False
         sa = {e.data["attr"]: e for e in evs if e.kind == "SETATTR" and e.data["recv"] == "lock"}
         pops = [e for e in evs if e.kind == "EXT" and e.data["recv"] == "lock._waiters" and e.data["method"] == "popleft"]
         if exceptional:
             n_exc += 1
             if "_is_broken" not in sa or sa["_is_broken"].data["value"] != "True":
                 bad.append(("an exceptional exit does not mark the lock broken", t))
-            if "_exception" not in sa or sa["_exception"].data["value"] != "exc_val":
+            if "_exception" not in sa or "holder" not in str(sa["_exception"].data["value"]):
                 bad.append(("the causing exception is not stored for later acquirers", t))
             iters = next((v for k, v in t.pc if k.startswith("iterations(lock._waiters)")), None)
             wakes = [e for e in evs if e.kind == "EXT" and e.data["method"] == "set" and e.data["recv"].startswith("elem")]
